@@ -1,6 +1,6 @@
 import Lemmas.NumStmt
 /-! No portion constant with a zero denominator enters the resource table: the portion constants of a compiled
-program are portion literals of its text, and the fragment only admits literals with a positive denominator. -/
+program are portion literals of its text, and the fragment only allows literals with a positive denominator. -/
 namespace Num
 
 /-- every portion literal of an expression has a positive denominator -/
